@@ -541,6 +541,19 @@ def translate_file(repo, stem, ctx, report):
                     full = f'{stem}.{tname}.{f["name"]}'
                     try:
                         body = parse_body(f['body'])
+                        # guard-clause spelling: `if c { return Err(..); } Ok(..)` is `if c { Err(..) } else { Ok(..) }`
+                        if len(body[1]) == 1 and body[1][0][0] == 'expr' and body[1][0][1][0] == 'if' and body[1][0][1][3] is None \
+                                and body[2] is not None and body[2][0] == 'call':
+                            g = body[1][0][1]
+                            gb = g[2]
+                            ret = None
+                            if len(gb[1]) == 1 and gb[2] is None and gb[1][0][0] == 'expr' and gb[1][0][1][0] == 'return':
+                                ret = gb[1][0][1][1]
+                            elif not gb[1] and gb[2] is not None and gb[2][0] == 'return':
+                                ret = gb[2][1]
+                            if ret is None:
+                                raise Unsupported('constructor shape')
+                            body = ('block', [], ('if', g[1], ('block', [], ret), ('block', [], body[2])))
                         if body[1] or body[2] is None or body[2][0] != 'if':
                             raise Unsupported('constructor shape')
                         _, cond, th, el = body[2]
